@@ -74,16 +74,25 @@ fn kc9_crc_word_step() {
     kani::cover!(crc == 0xffff_ffff);
 }
 
-/// public entry point on short inputs (the path Kani's model of `align_to` yields): crc32_braid == !naive(!start)
-/// == bitwise definition, symbolic start and data, lengths 0..=3
+/// `<[T]>::align_to` may return everything in the prefix ("it is permissible for the middle slice to be empty", std docs),
+/// which is what it does when `align_offset` answers usize::MAX ("cannot be aligned", also permitted by its contract).
+/// Kani's own model of the pointer arithmetic costs > 16 GB here, so the harness below fixes that permitted answer.
+pub(crate) unsafe fn stub_align_offset_never<T>(_p: *const T, _a: usize) -> usize {
+    usize::MAX
+}
+
+/// public entry point on short inputs: pre/post inversion, prefix -> words -> suffix composition with an empty word part:
+/// crc32_braid == bitwise definition, symbolic start and data, lengths 0..=4
 #[kani::proof]
 #[kani::unwind(12)]
+#[kani::stub(core::ptr::align_offset, stub_align_offset_never)]
 fn kc9_crc_braid_short() {
     let start: u32 = kani::any();
-    let data: [u8; 3] = kani::any();
+    let data: [u8; 4] = kani::any();
     let len: usize = kani::any();
-    kani::assume(len <= 3);
+    kani::assume(len <= 4);
     let got = crc32_braid::<5>(start, &data[..len]);
     assert!(got == ref_crc32(start, &data[..len]));
-    kani::cover!(len == 3);
+    kani::cover!(len == 4);
+    kani::cover!(len == 0);
 }
